@@ -45,8 +45,8 @@ inline int decode(const std::string& s, size_t& pos, Frame& f)
   f.masked = b1 & 0x80;
   uint64_t n = b1 & 0x7F;
   if (f.opcode >= 8 && (n > 125 || !f.fin)) return -1;
-  if (n == 126) { if (s.size() - p < 2) return 0; n = ((unsigned char)s[p] << 8) | (unsigned char)s[p + 1]; p += 2; }
-  else if (n == 127) { if (s.size() - p < 8) return 0; n = 0; for (int i = 0; i < 8; i++) n = (n << 8) | (unsigned char)s[p + (size_t)i]; p += 8; }
+  if (n == 126) { if (s.size() - p < 2) return 0; n = ((unsigned char)s[p] << 8) | (unsigned char)s[p + 1]; p += 2; if (n < 126) return -1; /* RFC 6455 5.2: minimal encoding */ }
+  else if (n == 127) { if (s.size() - p < 8) return 0; n = 0; for (int i = 0; i < 8; i++) n = (n << 8) | (unsigned char)s[p + (size_t)i]; p += 8; if (n <= 0xFFFF) return -1; }
   if (f.masked) { if (s.size() - p < 4) return 0; memcpy(f.key, s.data() + p, 4); p += 4; }
   if (n > (1ull << 32)) return -1;
   if (s.size() - p < n) return 0;
